@@ -387,6 +387,26 @@ pub fn add_sections(rep: &mut Report, prop: &str, thorough: bool, conformant_onl
         rep.add(sec);
     }
     {
+        // sizes: every length around the DER length-form boundaries in the CRL's variable-length places
+        let mut lens: Vec<usize> = (0..=300).collect();
+        lens.extend([65534, 65535, 65536, 65537]);
+        let places = ["issuing distribution point URI", "pre-specified key identifier", "revoked serial", "CRL number"];
+        let cases: Vec<(usize, usize)> = lens.iter().flat_map(|l| (0..places.len()).map(move |w| (*l, w))).filter(|c| !(c.1 >= 2 && c.0 > 300) && !(conformant_only && ((c.1 == 1 && c.0 > 20) || (c.1 >= 2 && (c.0 == 0 || c.0 > 20)) || (c.1 == 0 && c.0 == 0)))).collect();
+        let sec = Section::new("crl/sweep/sizes", "every length 0..=300 (and 65534..=65537 for the first two) for an issuing-distribution-point URI, a pre-specified key identifier, a revoked certificate's serial and the CRL number");
+        run::sweep_cases(&sec, &cases, &|c| format!("len={} where={}", c.0, places[c.1]), &|c| {
+            let mut st = CrlState::default();
+            let n = c.0;
+            match c.1 {
+                0 => st.idp = Some(IdpSpec { uris: vec!["u".repeat(n)], scope: None }),
+                1 => st.key_id = KeyIdSpec::Pre(vec![0x82; n]),
+                2 => st.revoked = vec![RevokedSpec { serial: std::iter::once(0x01).chain(std::iter::repeat(0x80)).take(n).collect(), time: TimeSpec::ymd(2023, 1, 1), reason: None, invalidity: None }],
+                _ => st.crl_number = std::iter::once(0x01).chain(std::iter::repeat(0x80)).take(n).collect(),
+            }
+            judge(prop, &known, &CrlCase { st, issuer: 0 }, &iss, n <= 300)
+        });
+        rep.add(sec);
+    }
+    {
         // crl numbers: all byte strings of length <= 2
         let mut nums: Vec<Vec<u8>> = vec![vec![]];
         for a in 0..=255u8 {
